@@ -24,7 +24,7 @@ RULE = ("composed-stack exploration: client A sets a state vector and calls appl
         "the device before A applies its unchanged state again. "
         "Oracle: reference-device state == applied vector; A's and B's public attributes == device state. "
         "Plus one long session per protocol: > 600 commands (two wraps of the 8-bit message id) from one client pair, device and "
-        "read-back compared in every round. state = (vector, protocol, choice prefix); transition = one choice point answered")
+        "read-back compared in every round; every other read-back is a two-exchange refresh during which the unit is changed by a remote control and reports it. state = (vector, protocol, choice prefix); transition = one choice point answered")
 ASSUMPTIONS = ["unsolicited reports are truthful", "segments of one reply arrive 1 microsecond apart and before the read timeout",
                "V2 has no stream framing in the library: split / coalesced V2 replies are a recorded known finding, every other "
                "violation is reported"]
@@ -317,8 +317,25 @@ def run_creds(st: Stats, tier, cidx):
 def run_long(st: Stats, tier, version):
     """One process-long session: > 2 wraps of the 8-bit message id on one client pair, every round checked."""
     model = RefAC({})
-    rig = Rig(version, ac=model)
+    remote = {"arm": False, "n": 0}
+
+    def script(req):
+        # "remote control": while client B's refresh is between its state query and its energy query somebody changes the
+        # setpoint on the unit, which reports its new state (truthfully) together with the energy answer
+        is_energy = req.kind == "data" and req.frame is not None and len(req.frame) > 13 and req.frame[10] == 0x41 and req.frame[13] == 0x44
+        if remote["arm"] and is_energy and req.responses:
+            remote["arm"] = False
+            remote["n"] += 1
+            model.state["temp"] = 18.5 if model.state["temp"] != 18.5 else 26.0
+            model.state["power"] = not model.state["power"]
+            req.conn.deliver_many(list(req.responses) + [req.dev.wrap(req.conn, model.report(0x05, 0x55))], LATENCY)
+            return
+        for p in req.responses:
+            req.send(p)
+
+    rig = Rig(version, ac=model, script=script)
     a, b = rig.client(), rig.client()
+    b.enable_energy_usage_requests = True
     vs = vectors("quick")
     target = 600 if tier != "thorough" else 1400
     problems = []
@@ -337,7 +354,9 @@ def run_long(st: Stats, tier, version):
             if dd:
                 problems.append((i, len(model.frames), f"device state differs from the applied state: {dd}"))
             if i % 3 == 0:
+                remote["arm"] = i % 2 == 0
                 await b.refresh()
+                remote["arm"] = False
                 bd = diff_view(client_view_of(model.state), b)
                 if bd or not b.online:
                     problems.append((i, len(model.frames), f"fresh client B does not report the device state (online={b.online}): {bd}"))
